@@ -78,6 +78,10 @@ class Verb(AstNode):
 @dataclasses.dataclass(eq=False, slots=True, repr=False)
 class Alias(Verb):
     uuid_map: dict[UUID, UUID] | None
+    # `transfer_col_references`: the result carries the column identities of the reference source
+    # and counts as derived from it (join validation). Stored on the node so that a cache rebuilt
+    # from the AST knows it, too.
+    ref_source_ancestors: frozenset[AstNode] = frozenset()
 
     # TODO: currently we kinda misuse Alias for column reference transfer. Maybe it
     # would be nice to create a separate marker node for this to distinguish it from a
